@@ -90,6 +90,11 @@ class ExprT:
             return out
         if isinstance(node, ast.UnaryOp) and isinstance(node.op, ast.Not):
             return '(pyNot %s)' % self.test(node.operand)
+        if isinstance(node, ast.Constant) and isinstance(node.value, bool):
+            return '(pure %s)' % ('true' if node.value else 'false')
+        if isinstance(node, ast.IfExp):
+            # `a if c else b` as a test: evaluate c, then only the chosen branch (Python's evaluation order)
+            return '(do if (← %s) then %s else %s)' % (self.test(node.test), self.test(node.body), self.test(node.orelse))
         if isinstance(node, ast.Call) and isinstance(node.func, ast.Name) and node.func.id == 'isinstance' and len(node.args) == 2:
             return '(pure (Val.isInst %s %s))' % (llist(map(lstr, self.types(node.args[1]))), self.val(node.args[0]))
         if isinstance(node, ast.Compare) and len(node.ops) == 1:
@@ -672,6 +677,8 @@ class StatT:
         raise Untranslatable('scalar expression `%s`' % ast.unparse(node))
     def cond(self, node):
         """test -> Lean Bool"""
+        if isinstance(node, ast.Name) and node.id in getattr(self, 'boolnames', {}):
+            return self.cond(self.boolnames[node.id])          # `converged = <test>` ... `if converged or ...`: inlined
         if isinstance(node, ast.BoolOp):
             op = ' && ' if isinstance(node.op, ast.And) else ' || '
             parts = [self.cond(v) for v in node.values]
@@ -701,6 +708,11 @@ class StatT:
         return default
     def stmt(self, st):
         """returns False when the statement is not part of the statistics language"""
+        if isinstance(st, ast.Assign) and len(st.targets) == 1 and isinstance(st.targets[0], ast.Name) and \
+           isinstance(st.value, (ast.BoolOp, ast.Compare)):
+            # a named test: kept by definition, inlined where it is used
+            if not hasattr(self, 'boolnames'): self.boolnames = {}
+            self.boolnames[st.targets[0].id] = st.value; return True
         if isinstance(st, ast.Expr) and isinstance(st.value, ast.Call):
             c = st.value; f = ast.unparse(c.func)
             if f in GEMV:
@@ -821,6 +833,13 @@ def decision_tree(T, ifnode, epilogue_prefix=()):
         return '(if %s then %s else %s)' % (T.cond(i.test), a, b)
     return chain(ifnode), returns
 
+def mentions_tol(test, boolnames):
+    """the stopping test: refers to the tolerances, directly or through a named test (`converged = ...`)"""
+    for x in ast.walk(test):
+        if isinstance(x, ast.Name) and x.id in ('FEASTOL', 'ABSTOL'): return True
+        if isinstance(x, ast.Name) and x.id in boolnames and mentions_tol(boolnames[x.id], {k: v for k, v in boolnames.items() if k != x.id}): return True
+    return False
+
 def gen_decide_solver(mod, name, stats_fields):
     fn = find_func(load(mod), name)
     loop = None
@@ -831,7 +850,7 @@ def gen_decide_solver(mod, name, stats_fields):
     decision = None
     for st in loop.body:
         if isinstance(st, ast.If) and any(isinstance(x, ast.Return) for x in ast.walk(st)) and \
-           any(isinstance(x, ast.Name) and x.id in ('FEASTOL', 'ABSTOL') for x in ast.walk(st.test)):
+           mentions_tol(st.test, getattr(T, 'boolnames', {})):
             decision = st; break
         if isinstance(st, ast.If) and ast.unparse(st.test) == 'show_progress': continue
         if not T.stmt(st):
@@ -842,7 +861,7 @@ def gen_decide_solver(mod, name, stats_fields):
     missing = [f for f in stats_fields if f not in T.defined]
     if missing: raise Untranslatable('%s: statistics %s are not computed in the block' % (name, missing))
     # decision uses its own translator state so that its free names become parameters
-    D = StatT(); D.optional = set(T.optional); D.defined = set()
+    D = StatT(); D.optional = set(T.optional); D.defined = set(); D.boolnames = dict(getattr(T, 'boolnames', {}))
     tree, returns = decision_tree(D, decision)
     return T, stats_lines, D, tree, returns
 
@@ -931,9 +950,11 @@ def gen_decide_nl():
         if isinstance(n, ast.For) and isinstance(n.target, ast.Name) and n.target.id == 'iters': loop = n
     if loop is None: raise Untranslatable('main loop of cpl not found')
     decision = None
+    bn = {}          # named tests (`converged = ...`) seen before the stopping test
     for st in loop.body:
-        if isinstance(st, ast.If) and any(isinstance(x, ast.Return) for x in ast.walk(st)) and \
-           any(isinstance(x, ast.Name) and x.id in ('FEASTOL', 'ABSTOL') for x in ast.walk(st.test)):
+        if isinstance(st, ast.Assign) and len(st.targets) == 1 and isinstance(st.targets[0], ast.Name) and isinstance(st.value, (ast.BoolOp, ast.Compare)):
+            bn[st.targets[0].id] = st.value
+        if isinstance(st, ast.If) and any(isinstance(x, ast.Return) for x in ast.walk(st)) and mentions_tol(st.test, bn):
             decision = st; break
     if decision is None: raise Untranslatable('stopping test of cpl not found')
     # relgap is the optional scalar of the statistics block: confirm it is assigned None somewhere before the test
@@ -943,7 +964,7 @@ def gen_decide_nl():
         for x in ast.walk(st):
             if isinstance(x, ast.Assign) and isinstance(x.value, ast.Constant) and x.value.value is None and isinstance(x.targets[0], ast.Name):
                 opt.add(x.targets[0].id)
-    D = StatT(); D.optional = set(opt); D.defined = set()
+    D = StatT(); D.optional = set(opt); D.defined = set(); D.boolnames = dict(bn)
     tree, returns = decision_tree(D, decision)
     dfree = sorted(v for v in D.free if v not in ('iters',))
     params = ['(%s : %s)' % (v, 'Nat' if v == 'MAXITERS' else ('Option K' if v in D.optional else 'K')) for v in dfree]
